@@ -66,7 +66,15 @@ VARIANTS = [
     V("c11_const_misnamed", "M", RW, "RWKernel.__init__",
       *replace_stmt("self.da_gamma = da_gamma", "self.da_gamma = da_kappa"),
       note="constructor stores kappa as gamma", expect_rule="C11.R3"),
+    V("c11_adaptive_in_burnin", "M", "liesel/goose/kernel.py", "TransitionMixin.transition",
+      *replace_expr("EpochType.is_adaptation(epoch.config.type)",
+                    "EpochType.is_warmup(epoch.config.type)"),
+      note="step size adapts during burn-in", expect_rule="C11.R4"),
     # ---- twins
+    V("c11_t_dispatch_membership", "T", "liesel/goose/kernel.py", "TransitionMixin.transition",
+      *replace_expr("EpochType.is_adaptation(epoch.config.type)",
+                    "epoch.config.type in (EpochType.FAST_ADAPTATION, EpochType.SLOW_ADAPTATION)"),
+      note="same predicate spelled as a membership test"),
     V("c11_t_eta_inline", "T", D, "da_step",
       *replace_stmt("ks.log_avg_step_size = (1 - eta) * ks.log_avg_step_size + eta * log_step_size",
                     "ks.log_avg_step_size = ks.log_avg_step_size + t ** (-kappa) * (log_step_size - ks.log_avg_step_size)"),
